@@ -424,8 +424,12 @@ func c02LangCases(args map[string]string, work string) ([]*c02LangCase, map[stri
 		}
 	} else {
 		for i := from; i < from+n; i++ {
-			terms = append(terms, genDefs(seed, i, gen))
+			terms = append(terms, c02MaybeRestyle(genDefs(seed, i, gen), i+int(seed), ""))
 		}
+		c02Spell = "mixed"
+	}
+	if sp, ok := args["spell"]; ok {
+		c02Spell = sp
 	}
 	cases := []*c02LangCase{}
 	j := int(seed)*11 + 3
